@@ -16,6 +16,11 @@ STEP_TIMEOUT = float(os.environ.get("VERIF_STEP_TIMEOUT", "30"))
 # hang after STEP_TIMEOUT of wall time.
 HANG_CPU = float(os.environ.get("VERIF_HANG_CPU", "6"))
 _TICK = os.sysconf("SC_CLK_TCK")
+try:
+    import ctypes
+    _LIBC = ctypes.CDLL(None)
+except Exception:
+    _LIBC = None
 
 
 def _cpu_of(pid):
@@ -103,6 +108,14 @@ class Host:
         hi_w = fcntl.fcntl(h2c_w, fcntl.F_DUPFD, 30)
 
         def pre():
+            # runaway output (a daemon looping while it logs) must not fill the scratch file system: the process
+            # dies with SIGXFSZ, which every profile reports as a crash
+            import resource
+            resource.setrlimit(resource.RLIMIT_FSIZE, (256 << 20, 256 << 20))
+            try:        # a daemon that spins must not outlive a worker that is terminated (PR_SET_PDEATHSIG, SIGKILL)
+                _LIBC.prctl(1, 9, 0, 0, 0)
+            except Exception:
+                pass
             os.dup2(hi_r, 3)
             os.dup2(hi_w, 4)
             for fd in (hi_r, hi_w):
